@@ -61,7 +61,7 @@ def has_evals(b):
 
 @st.composite
 def gp_steps(draw, popsize):
-    shape = draw(st.sampled_from(["default", "simplegp", "select-vary", "vary-select", "novelty"]))
+    shape = draw(st.sampled_from(["default", "simplegp", "select-vary", "vary-select", "vary-rank", "vary-rank", "novelty"]))
     k = draw(st.integers(1, 5))
     pc = draw(st.sampled_from([0.01, 0.5, 0.9, 1.0]))
     pm = draw(st.sampled_from([0.01, 0.5, 0.9, 1.0]))
@@ -78,6 +78,9 @@ def gp_steps(draw, popsize):
         return ["seq", [producer, ["tournament", k, draw(st.booleans())]]]
     if shape == "select-vary":
         return ["seq", [["tournament", k, draw(st.booleans())], ["mutation", 1.0]]]
+    if shape == "vary-rank":
+        # freshly produced individuals ranked by an elitism step that passes all of them on
+        return ["seq", [draw(st.sampled_from([["mutation", 1.0], ["novelty"], ["crossover", 1.0]])), ["elitism"]]]
     return ["novelty"]
 
 
@@ -112,7 +115,7 @@ class Budgets(Facet):
     name = "budget_checks"
 
     def budget(self, tier):
-        return (60, 6) if tier == "quick" else (800, 16)
+        return (120, 6) if tier == "quick" else (800, 16)
 
     def strategy(self, tier):
         return cases()
@@ -175,7 +178,8 @@ class Budgets(Facet):
                     v = self.inner.is_done(tracker)
                     b = tracker.get_best_individual()
                     bv = None if b is None else b.get_fitness(tracker.problem).fitness_components[0]
-                    log.append((self.path, tracker.get_number_evaluations(), bv, bool(v), len(invoked), self.root))
+                    bi = None if not invoked else (min(invoked) if case["minimize"] else max(invoked))
+                    log.append((self.path, tracker.get_number_evaluations(), bv, bool(v), len(invoked), self.root, bi))
                     return v
 
             def build(b, path, root=False):
@@ -242,7 +246,16 @@ class Budgets(Facet):
             rec.sample(desc, limit=2)
             tracker = w.last_algorithm.tracker
             # node verdicts
-            for path, evals, bv, verdict, ninv, root in log:
+            # Does every evaluated individual reach the tracker with this configuration? (A selection
+            # step that follows a variation step drops its losers unseen: the open C12 finding.)
+            all_reach_tracker = case["alg"] != "gp" or not case["step"] or (case["step"][0] != "seq" or case["step"][1][-1][0] in ("mutation", "crossover", "novelty", "elitism"))
+            for path, evals, bv, verdict, ninv, root, bi in log:
+                if all_reach_tracker and verdict != ref_budget(by_path[path], evals, bi):
+                    rec.fail(
+                        f"C14/verdict-ignores-an-evaluated-individual/{by_path[path][0]}",
+                        f"budget node {by_path[path]} answered {verdict} at {evals} evaluations although the best fitness evaluated so far is {bi} (the tracker reports {bv}); {desc}",
+                    )
+                    return
                 exp = ref_budget(by_path[path], evals, bv)
                 if verdict != exp:
                     rec.fail(
@@ -254,8 +267,8 @@ class Budgets(Facet):
             if not roots:
                 rec.fail("C14/no-budget-check", f"search returned without consulting the budget; {desc}")
                 return
-            if any(v for _, _, _, v, _, _ in roots[:-1]) or not roots[-1][3]:
-                rec.fail(f"C14/stop-point/{case['alg']}", f"root verdicts {[v for *_, v, _, _ in roots][-6:]}: the search must stop at the first true check; {desc}")
+            if any(x[3] for x in roots[:-1]) or not roots[-1][3]:
+                rec.fail(f"C14/stop-point/{case['alg']}", f"root verdicts {[x[3] for x in roots][-6:]}: the search must stop at the first true check; {desc}")
                 return
             if roots[-1][4] != len(invoked):
                 rec.fail(f"C14/evaluated-after-stop/{case['alg']}", f"{len(invoked) - roots[-1][4]} fitness invocations after the final budget check; {desc}")
@@ -358,4 +371,24 @@ class TargetTranslation(Facet):
             w.cleanup()
 
 
-FACETS = [Budgets(), TargetTranslation()]
+class TargetReachedByOffspring(Budgets):
+    """GP runs (minimising) whose budget is AnyOf(TargetFitness(t), EvaluationBudget(n)) and whose
+    fitness function returns exactly t for one individual evaluated AFTER the initial generation:
+    the search must stop at the first check after that evaluation, whatever step produced it."""
+
+    name = "target_reached_by_offspring"
+
+    def budget(self, tier):
+        return (50, 4) if tier == "quick" else (400, 8)
+
+    def strategy(self, tier):
+        def fix(case, n, t, off):
+            pop = max(2, case["popsize"])
+            case = dict(case)
+            case.update(alg="gp", popsize=pop, minimize=True, budget=["anyof", ["target", t], ["evals", n]], target_at=min(n - 1, pop + off))
+            return case
+
+        return st.builds(fix, cases().filter(lambda c: c["alg"] == "gp" and c["step"] is not None), st.integers(30, 90), st.integers(0, 4), st.integers(0, 40))
+
+
+FACETS = [Budgets(), TargetTranslation(), TargetReachedByOffspring()]
